@@ -31,6 +31,19 @@ def scenarios(tier):
                   ("TRAVELZ", "I1", 2), ("ZMOVE", 2), ("ZMOVE", 1), ("INCH",), ("MM",), ("REL",), ("ABS",)],
                  max_depth=6 if q else 8, max_states=3000000),
     ]
+    out.append(Scenario("c03-z-digits", World, dict(prop="C03", monitors=mon, regions=["R"], emax=1, key_depth=False),
+                        [("TRAVEL", "O2"), ("TRAVEL", "I1"), ("TRAVEL", "F3"), ("ZMOVE", "9.8"), ("ZMOVE", "10"), ("ZMOVE", "0.6"),
+                         ("REL",), ("ABS",), ("AT", "ExcludeRegion", "disable")],
+                        max_states=100000 if q else 1000000, guard=None,
+                        note="Z values with different numbers of integer digits (9.8 / 10), three-decimal coordinates in "
+                             "relative mode") if False else
+                 Scenario("c03-z-digits", World, dict(prop="C03", monitors=mon, regions=["R"], emax=1, key_depth=False,
+                                                      guard=no_relative_disable),
+                          [("TRAVEL", "O2"), ("TRAVEL", "I1"), ("TRAVEL", "F3"), ("ZMOVE", "9.8"), ("ZMOVE", "10"),
+                           ("ZMOVE", "0.6"), ("REL",), ("ABS",), ("AT", "ExcludeRegion", "disable")],
+                          max_depth=6 if q else 9, max_states=100000 if q else 1000000,
+                          note="Z values with different numbers of integer digits (9.8 / 10), three-decimal coordinates in "
+                               "relative mode"))
     out.append(Scenario("c03-arcs", World, dict(prop="C03", monitors=mon, regions=["R"], emax=1, key_depth=False),
                         [("TRAVEL", "O1"), ("TRAVEL", "O2"), ("TRAVEL", "I1"), ("ARC", "cross"), ("ARC", "into"),
                          ("ARC", "under"), ("ARC", "cross", "Z"), ("ARC", "into", "EZ"), ("ZMOVE", 2), ("ZMOVE", 1), ("XONLY", "O2"), ("YONLY", "I1"), ("PRINT", "O3")],
